@@ -728,6 +728,7 @@ func RunC03(r *mon.Run) {
 		return envs["dyn|"+c.Mux]
 	}
 	runDeep(r, g)
+	runConcC03(r, g)
 	all := append(append([]RuleSpec(nil), dyn...), real...)
 	nMulti := r.Pick(100, 6000)
 	nMut := r.Pick(4, 200)
@@ -748,7 +749,7 @@ func RunC03(r *mon.Run) {
 			if c == nil {
 				return true
 			}
-			return apply(r, c, execCase(envOf(c), c))
+			return apply(r, c, muxIsolated(c, execCase(envOf(c), c), envOf))
 		}
 		leaves := urlLeaves(p.in, 3)
 		// (a) systematic single-leaf cases
@@ -856,6 +857,29 @@ func RunC03(r *mon.Run) {
 	}
 }
 
+// muxIsolated: a failure on a non-default mux that disappears on the default
+// mux is keyed by the mux configuration instead of the field class.
+func muxIsolated(c *Case, o outcome, envOf func(*Case) *env) outcome {
+	if len(o.viols) == 0 || c.Mux == "" || strings.Contains(o.viols[0].key, ":transport:") || strings.HasPrefix(o.viols[0].key, "panic@") {
+		return o
+	}
+	c2 := *c
+	c2.Mux = ""
+	if isCustomType(strings.Join(c.Req.Header["Content-Type"], "")) {
+		return o
+	}
+	if o2 := execCase(envOf(&c2), &c2); len(o2.viols) == 0 && o2.inconcl == "" {
+		for i, v := range o.viols {
+			parts := strings.SplitN(v.key, ":", 3)
+			if len(parts) >= 2 {
+				o.viols[i].key = parts[0] + ":" + parts[1] + ":mux=" + c.Mux
+				o.viols[i].what += " - the same request is delivered correctly by a mux built without these options"
+			}
+		}
+	}
+	return o
+}
+
 func execCase(e *env, c *Case) outcome {
 	switch c.Kind {
 	case "c03-pos":
@@ -866,6 +890,8 @@ func execCase(e *env, c *Case) outcome {
 		return execC07(e, c)
 	case "c07-ws":
 		return execC07WS(e, c)
+	case "concurrent":
+		return outcome{inconcl: "cases observed under concurrency are not replayable sequentially: " + c.Note}
 	case "c04":
 		return execC04(e, c)
 	case "c04-seq":
